@@ -4,6 +4,7 @@
   label set of its own dimension and thereby clears the labels of the other dimensions).  Proved here:
   the counter-example, and the partial statement per dimension.
 -/
+import TealerModel.Props.TieFlow
 import TealerModel.Props.Common
 import TealerModel.Props.Tie
 import TealerModel.Props.TieMatchers
@@ -87,5 +88,13 @@ theorem C07_tie_enum_conversions (v : Option IntVal) :
     PyView.lookupEnum Generated.typeEnumTable Generated.typeEnumNames v = v.bind typeToType ∧
     PyView.lookupEnum Generated.oncompletionTable Generated.oncompletionNames v = v.bind oncompletionToType :=
   ⟨TieM.lookup_type_tie v, TieM.lookup_oncompletion_tie v⟩
+
+/-- the block-level constraint of this analysis is computed by the Python's own `_block_level_constraints`, translated on this
+    run (instance of `TieF.block_tie`; edge constraints and transfer functions: `C01_tie_constraints`, `C01_tie_transfer_functions`) -/
+theorem C07_tie_block_constraint (intcs : Option (List Nat)) (b : FBlock) (key : Key) (n : Nat) :
+    blockConstraint txnTypeAnalysis intcs b key =
+      Generated.blockLevelConstraints (TieM.envOf intcs) txnTypeAnalysis.dom (txnTypeAnalysis.univ key.base)
+        (TieF.gaOf txnTypeAnalysis intcs (constructAst b.ins) key (b.ins.length + 1)) (TieM.envOf intcs) key (TieF.fblockView b n) :=
+  TieF.block_tie txnTypeAnalysis intcs b key n
 
 end Tealer.C07
